@@ -164,7 +164,13 @@ class Resolver:
         if exports and isinstance(self.current_scope, NamedScope):
             scope = self.current_scope
             if scope.parent is not None:
-                scope.parent.symbols |= {f"{scope.name}.{k}": v for k, v in scope.symbols.items()}
+                exported = {f"{scope.name}.{k}": v for k, v in scope.symbols.items()}
+                scope.parent.symbols |= exported
+                scope.parent.pending -= exported.keys()
+                # what the scope has announced but not defined yet is pending under its exported name too:
+                # until then scope.name must not fall through to an outer scope of the same name.
+                for symbol in scope.pending:
+                    scope.parent.declare(f"{scope.name}.{symbol}")
         if self.current_scope.parent is not None:
             self.current_scope = self.current_scope.parent
         else:
